@@ -163,6 +163,35 @@ def cases():
     for o in ('PT15H', '-PT15H', 'P1D', '-P1D', 'PT2147483648S', '-PT2147483649S', 'PT4294967296S', 'PT4294967297S', 'PT9223372036854775807S', 'PT9223372036854775808S', '-PT9223372036854775808S',
               'PT9223372036854775809S', 'PT18446744073709551615S', '-PT18446744073709551615S', 'PT18446744073709551614S', 'P213503982334601D'):
         out.append(('time(1, 2, 3, duration("%s"))' % o, 'null'))
+    # instants that differ in any of the nine fraction digits are different instants (C15: order on the UTC time line), whatever offsets they are written with
+    for k in range(1, 10):
+        lo = '10:15:30.' + '123456789'[:k]
+        hi = '10:15:30.' + str(int('123456789'[:k]) + 1).rjust(k, '0')
+        for (a, b) in (('2021-03-04T%sZ' % lo, '2021-03-04T%sZ' % hi), ('2021-03-04T%sZ' % lo, '2021-03-04T11:%s+01:00' % hi[3:]), ('2021-03-04T%s-05:00' % lo, '2021-03-04T%s-05:00' % hi)):
+            A, B = 'date and time("%s")' % a, 'date and time("%s")' % b
+            out.append(('%s < %s' % (A, B), 'true'))
+            out.append(('%s > %s' % (B, A), 'true'))
+            out.append(('%s = %s' % (A, B), 'false'))
+            out.append(('%s >= %s' % (A, B), 'false'))
+            out.append(('%s between %s and %s' % (B, A, A), 'false'))
+            out.append(('%s in [%s..%s)' % (A, A, B), 'true'))
+            out.append(('%s in (%s..%s]' % (A, A, B), 'false'))
+        out.append(('time("%sZ") < time("%sZ")' % (lo, hi), 'true'))
+        out.append(('time("%sZ") = time("%sZ")' % (lo, hi), 'false'))
+        out.append(('time("%s+02:00") > time("%s+02:00")' % (hi, lo), 'true'))
+    # the components of a days-and-time duration are those of its whole length, however long it is (C15: up to the full range of a literal), also when it is a sum
+    for (d_, h_, m_, s_) in ((213503, 23, 34, 33), (213504, 0, 0, 0), (213504, 5, 18, 36), (300000, 1, 2, 3), (427008, 0, 0, 1), (1000000, 23, 59, 59), (106751991167, 7, 12, 55)):
+        lit = 'P%dDT%dH%dM%dS' % (d_, h_, m_, s_)
+        for sg in ('', '-'):
+            D = 'duration("%s%s")' % (sg, lit)
+            out.append(('%s.days' % D, str(d_)))
+            out.append(('%s.hours' % D, str(h_)))
+            out.append(('%s.minutes' % D, str(m_)))
+            out.append(('%s.seconds' % D, str(s_)))
+    for (a, b, comp) in (('P150000DT5H18M36S', 'P150000DT1H1M1S', (300000, 6, 19, 37)), ('P213503DT23H', 'PT1H30M', (213504, 0, 30, 0)), ('-P150000DT5H', '-P150000DT20H', (300001, 1, 0, 0))):
+        S = '(duration("%s") + duration("%s"))' % (a, b)
+        for (nm, v) in zip(('days', 'hours', 'minutes', 'seconds'), comp):
+            out.append(('%s.%s' % (S, nm), str(v)))
     # ---- B: date(y, m, d)
     for y in (1, 1900, 2000, 2020, 2021, 999999999):
         for m in (-1, 0, 1, 2, 12, 13, 255, 256, 257, 258, 268, 524, 65537):
